@@ -1,4 +1,720 @@
 package main
 
-func cmdDrive(args []string)       {}
-func cmdDeterminism(args []string) {}
+// The driver behind /verif/check: spawns worker processes (plain and
+// -race builds of this same program), confirms and minimises what they
+// find, matches against known findings, writes the evidence file and
+// prints the verdict.
+
+import (
+	"bufio"
+	"bytes"
+	"encoding/json"
+	"flag"
+	"fmt"
+	"go/ast"
+	"go/parser"
+	"go/token"
+	"os"
+	"os/exec"
+	"path/filepath"
+	"sort"
+	"strconv"
+	"strings"
+	"sync"
+	"time"
+)
+
+type budget struct {
+	plainRuns, raceRuns int // quick tier: total runs
+	raceFilter          string
+	level               string
+}
+
+var budgets = map[string]budget{
+	"C11": {plainRuns: 1600, raceRuns: 0, level: "fault_enumeration"},
+	"C12": {plainRuns: 1920, raceRuns: 480, level: "exploration"},
+	"C13": {plainRuns: 1200, raceRuns: 480, raceFilter: "sinkMain", level: "exploration"},
+	"C15": {plainRuns: 1600, raceRuns: 0, level: "exploration"},
+	"C16": {plainRuns: 1200, raceRuns: 320, raceFilter: "sinkMain", level: "fault_enumeration"},
+}
+
+type knownFinding struct {
+	Kind      string   `json:"kind"` // "known" or "fixed"
+	Property  string   `json:"property"`
+	Invariant string   `json:"invariant"`
+	Contains  []string `json:"detail_contains"`
+	What      string   `json:"what"`
+	Commit    string   `json:"commit,omitempty"`
+}
+
+func loadKnown(path string) []knownFinding {
+	b, err := os.ReadFile(path)
+	if err != nil {
+		return nil
+	}
+	var k struct {
+		Findings []knownFinding `json:"findings"`
+	}
+	if err := json.Unmarshal(b, &k); err != nil {
+		fmt.Fprintf(os.Stderr, "HARNESS-TROUBLE: %s: %v\n", path, err)
+		os.Exit(2)
+	}
+	return k.Findings
+}
+
+func (k *knownFinding) matches(v *Violation) bool {
+	if k.Kind != "known" || k.Property != v.Prop || k.Invariant != v.Invariant {
+		return false
+	}
+	hay := v.Detail + "\n" + v.Expected + "\n" + v.Actual
+	for _, c := range k.Contains {
+		if !strings.Contains(hay, c) {
+			return false
+		}
+	}
+	return true
+}
+
+type workerJob struct {
+	race  bool
+	seed  int64
+	n     int
+	stats *WorkerStats
+	err   error
+	code  int
+	out   string
+}
+
+func trouble(format string, a ...interface{}) {
+	fmt.Fprintf(os.Stderr, "HARNESS-TROUBLE: "+format+"\n", a...)
+	os.Exit(2)
+}
+
+func cmdDrive(args []string) {
+	fs := flag.NewFlagSet("drive", flag.ExitOnError)
+	prop := fs.String("prop", "", "")
+	tier := fs.String("tier", "quick", "")
+	seed := fs.Int64("seed", 1, "")
+	bin := fs.String("bin", "", "")
+	raceBin := fs.String("racebin", "", "")
+	verif := fs.String("verif", "/verif", "")
+	work := fs.String("work", "", "scratch directory")
+	secs := fs.Float64("secs", 600, "thorough tier: seconds of exploration")
+	workers := fs.Int("workers", 16, "")
+	fs.Parse(args)
+	b, ok := budgets[*prop]
+	if !ok {
+		trouble("no check for property %q", *prop)
+	}
+	start := time.Now()
+	replayDir := filepath.Join(*verif, "replays")
+	os.MkdirAll(replayDir, 0o755)
+	os.MkdirAll(filepath.Join(*verif, "evidence"), 0o755)
+	known := loadKnown(filepath.Join(*verif, "known_findings.json"))
+
+	// ---- determinism spot check (every invocation) ----------------------
+	detSeeds := 6
+	detOK, detDetail := determinismSpot(*prop, *tier, *seed, detSeeds, *bin, *raceBin, *work)
+	if !detOK {
+		trouble("determinism spot check failed: %s", detDetail)
+	}
+
+	// ---- plan the workers -------------------------------------------------
+	var jobs []*workerJob
+	nRace := 0
+	if b.raceRuns > 0 {
+		nRace = *workers * 3 / 8
+		if *prop != "C12" {
+			nRace = *workers / 4
+		}
+	}
+	nPlain := *workers - nRace
+	maxsec := 0.0
+	plainPer, racePer := 0, 0
+	if *tier == "thorough" {
+		maxsec = *secs
+		plainPer, racePer = 1<<30, 1<<30
+	} else {
+		plainPer = (b.plainRuns + nPlain - 1) / nPlain
+		if nRace > 0 {
+			racePer = (b.raceRuns + nRace - 1) / nRace
+		}
+	}
+	const stride = 1 << 24
+	for i := 0; i < nPlain; i++ {
+		jobs = append(jobs, &workerJob{seed: *seed + int64(i)*stride, n: plainPer})
+	}
+	for i := 0; i < nRace; i++ {
+		// the race workers re-run the first seeds of the plain workers'
+		// ranges and then go on: same plans, different monitor
+		jobs = append(jobs, &workerJob{race: true, seed: *seed + int64(i)*stride + stride/2, n: racePer})
+	}
+	var wg sync.WaitGroup
+	for i, j := range jobs {
+		wg.Add(1)
+		go func(i int, j *workerJob) {
+			defer wg.Done()
+			runWorker(i, j, *prop, *tier, *bin, *raceBin, *work, replayDir, maxsec)
+		}(i, j)
+	}
+	wg.Wait()
+
+	// ---- aggregate ----------------------------------------------------------
+	total := newWorkerStats(*prop)
+	var found []FoundViolation
+	type raceHit struct {
+		seed int64
+	}
+	var raceSeeds []int64
+	var seedRanges []string
+	raceRunsDone, plainRunsDone := 0, 0
+	var samples []json.RawMessage
+	for _, j := range jobs {
+		if j.err != nil || j.stats == nil {
+			trouble("worker (race=%v seed=%d) failed: %v\n%s", j.race, j.seed, j.err, tailStr(j.out, 2000))
+		}
+		s := j.stats
+		seedRanges = append(seedRanges, fmt.Sprintf("%d..%d%s", s.FirstSeed, s.FirstSeed+int64(s.Runs)-1, map[bool]string{true: "(race)", false: ""}[j.race]))
+		if j.race {
+			raceRunsDone += s.Runs
+		} else {
+			plainRunsDone += s.Runs
+		}
+		mergeWorker(total, s)
+		found = append(found, s.Violations...)
+		raceSeeds = append(raceSeeds, s.RaceSeeds...)
+		if len(samples) < 3 && len(s.Samples) > 0 {
+			samples = append(samples, s.Samples[0])
+		}
+	}
+	for i := range total.Matrix {
+		for j := range total.Matrix[i] {
+			if total.Matrix[i][j] > 0 {
+				total.MatrixCells++
+			}
+		}
+	}
+
+	// ---- confirm what the workers found in a fresh process -------------------
+	var reported []FoundViolation
+	for _, f := range found {
+		out, code := runCmd(nil, 120*time.Second, *bin, "replay", "-quiet", f.Replay)
+		if code != 1 || !strings.Contains(out, "VIOLATION property="+f.V.Prop) {
+			trouble("violation %s of seed %d does not reproduce from its own replay file %s (exit %d)\n%s", f.V.key(), f.Seed, f.Replay, code, tailStr(out, 1500))
+		}
+		reported = append(reported, f)
+	}
+	// ---- races: confirm, minimise ------------------------------------------------
+	sort.Slice(raceSeeds, func(a, c int) bool { return raceSeeds[a] < raceSeeds[c] })
+	raceReported := 0
+	raceIgnored := 0
+	for _, sd := range raceSeeds {
+		if raceReported >= 2 {
+			break
+		}
+		plan := generate(*prop, sd, *tier)
+		test := func(q *Plan) (bool, string) { return raceReplays(q, *raceBin, *work, b.raceFilter) }
+		okRace, report := test(plan)
+		if !okRace {
+			if b.raceFilter != "" {
+				raceIgnored++
+				continue // a race that does not involve this property's mechanism: C12's business
+			}
+			trouble("race reported in seed %d did not reproduce in a fresh process", sd)
+		}
+		min, _ := minimize(plan, func(q *Plan) bool { r, _ := test(q); return r }, 160)
+		_, report2 := test(min)
+		if report2 != "" {
+			report = report2
+		}
+		v := Violation{Prop: *prop, Invariant: "data-race", Task: -1, OpIdx: -1, Detail: raceSummary(report)}
+		min.Violation = &v
+		path := filepath.Join(replayDir, fmt.Sprintf("%s-seed%d-data-race.json", *prop, sd))
+		if err := min.save(path); err != nil {
+			trouble("%v", err)
+		}
+		os.WriteFile(strings.TrimSuffix(path, ".json")+".report.txt", []byte(report), 0o644)
+		reported = append(reported, FoundViolation{Seed: sd, V: v, Replay: path, MinOps: min.opCount()})
+		raceReported++
+	}
+
+	// ---- verdict -------------------------------------------------------------------
+	exit := 0
+	nViol := 0
+	for i := range reported {
+		f := &reported[i]
+		for k := range known {
+			if known[k].matches(&f.V) {
+				f.Known = known[k].What
+			}
+		}
+	}
+	for k := range known {
+		if known[k].Kind == "known" && known[k].Property == *prop {
+			fmt.Printf("KNOWN-FINDING: property=%s %s\n", *prop, known[k].What)
+		}
+	}
+	for _, f := range reported {
+		if f.Known != "" {
+			continue
+		}
+		nViol++
+		exit = 1
+		fmt.Printf("VIOLATION property=%s replay=%s\n", f.V.Prop, f.Replay)
+		fmt.Printf("  invariant=%s seed=%d ops_after_minimisation=%d\n  %s\n", f.V.Invariant, f.Seed, f.MinOps, f.V.Detail)
+		if f.V.Expected != "" || f.V.Actual != "" {
+			fmt.Printf("  expected: %s\n  actual:   %s\n", f.V.Expected, f.V.Actual)
+		}
+	}
+
+	// ---- evidence ------------------------------------------------------------------
+	wall := time.Since(start).Seconds()
+	ev := map[string]interface{}{
+		"property_id": *prop,
+		"tier":        *tier,
+		"seed":        *seed,
+		"level":       b.level,
+		"wall_s":      wall,
+		"violations":  nViol,
+		"assumptions": assumptions(*prop),
+	}
+	cov := map[string]interface{}{
+		"evaluations":                           total.Runs,
+		"distinct_nontrivial":                   total.DistinctN,
+		"rule":                                  ruleText(*prop),
+		"samples":                               samples,
+		"runs_plain_build":                      plainRunsDone,
+		"runs_race_build":                       raceRunsDone,
+		"seed_ranges":                           seedRanges,
+		"runs_per_hour":                         int(float64(total.Runs) / wall * 3600),
+		"seeds_per_hour":                        int(float64(total.Runs) / wall * 3600),
+		"simulated_time":                        fmt.Sprintf("%d scheduler events (logical time: redact reads no clock; one tick per scheduler decision)", total.Events),
+		"events":                                total.Events,
+		"task_switches":                         total.Switches,
+		"ops_executed":                          total.Ops,
+		"ops_started_on_recycled_printer":       total.OpsRecycled,
+		"ops_during_which_another_op_completed": total.Interleaved,
+		"distinct_schedule_traces":              total.Traces,
+		"nontrivial_runs":                       total.Nontrivial,
+		"max_tasks_in_a_run":                    total.MaxTasks,
+		"yields_by_kind":                        total.Yields,
+		"faults_fired":                          total.Fired,
+		"pool":                                  total.Pool,
+		"history_matrix_nonempty_cells":         total.MatrixCells,
+		"history_matrix_cells_total":            (nClasses + 1) * nClasses,
+		"history_matrix_rows_prev_class_cols_this_class": matrixMap(total),
+		"returned_value_rehashes":                        total.HeldChecks,
+		"sink_rereads":                                   total.SinkReads,
+		"race_monitor_runs":                              raceRunsDone,
+		"race_reports_confirmed":                         raceReported,
+		"race_reports_not_involving_this_property":       raceIgnored,
+		"determinism_spot_check":                         detDetail,
+		"known_findings_matched":                         countKnown(reported),
+		"real_vs_stub": map[string]string{
+			"redact (all packages)":           "real, built from /repo working tree with -tags verif",
+			"printer allocation (ppFree.New)": "real",
+			"sync.Pool storage and selection": "stub: SimPool (documented contract only; per-printer release/acquire edge reproduced)",
+			"Go scheduler":                    "replaced at yield points by the baton scheduler; real between them",
+			"race detector":                   "real, used as monitor over serialised runs (race-build workers)",
+			"fmt/reflect/regexp/strconv":      "real",
+			"user methods (Stringer, error, Formatter, GoStringer, SafeFormatter, SafeMessager, error hook), io.Writers, log sink": "harness scripted objects",
+		},
+	}
+	if len(total.PanicPlace) > 0 {
+		cov["panic_placements_by_method_and_depth"] = total.PanicPlace
+	}
+	if len(total.PutStates) > 0 {
+		cov["printer_state_at_put"] = total.PutStates
+	}
+	if len(total.AbsStates) > 0 {
+		cov["abstract_buffer_states_reached"] = len(total.AbsStates)
+		cov["abstract_buffer_states"] = topN(total.AbsStates, 400)
+	}
+	if len(total.Routes) > 0 {
+		cov["routes_by_writer_behaviour"] = total.Routes
+	}
+	if len(total.Extra) > 0 {
+		cov["counters"] = total.Extra
+	}
+	ev["coverage"] = cov
+	eb, _ := json.MarshalIndent(ev, "", " ")
+	if err := os.WriteFile(filepath.Join(*verif, "evidence", *prop+".json"), eb, 0o644); err != nil {
+		trouble("%v", err)
+	}
+	fmt.Printf("%s %s: %d runs (%d plain, %d race-monitored), %d distinct non-trivial, %d events, %.1fs, violations=%d\n",
+		*prop, *tier, total.Runs, plainRunsDone, raceRunsDone, total.DistinctN, total.Events, wall, nViol)
+	os.Exit(exit)
+}
+
+func countKnown(fs []FoundViolation) int {
+	n := 0
+	for _, f := range fs {
+		if f.Known != "" {
+			n++
+		}
+	}
+	return n
+}
+
+func topN(m map[string]int, n int) map[string]int {
+	if len(m) <= n {
+		return m
+	}
+	type kv struct {
+		k string
+		v int
+	}
+	var l []kv
+	for k, v := range m {
+		l = append(l, kv{k, v})
+	}
+	sort.Slice(l, func(a, b int) bool {
+		if l[a].v != l[b].v {
+			return l[a].v > l[b].v
+		}
+		return l[a].k < l[b].k
+	})
+	r := map[string]int{}
+	for _, x := range l[:n] {
+		r[x.k] = x.v
+	}
+	return r
+}
+
+func matrixMap(w *WorkerStats) map[string]map[string]int {
+	r := map[string]map[string]int{}
+	for i := range w.Matrix {
+		prev := "fresh"
+		if i > 0 {
+			prev = classNames[i-1]
+		}
+		for j := range w.Matrix[i] {
+			if w.Matrix[i][j] > 0 {
+				if r[prev] == nil {
+					r[prev] = map[string]int{}
+				}
+				r[prev][classNames[j]] = w.Matrix[i][j]
+			}
+		}
+	}
+	return r
+}
+
+func mergeWorker(a, b *WorkerStats) {
+	a.Runs += b.Runs
+	a.Nontrivial += b.Nontrivial
+	a.DistinctN += b.DistinctN // seed ranges are disjoint; digests include the plan's outcomes
+	a.Traces += b.Traces
+	a.Events += b.Events
+	a.Switches += b.Switches
+	a.Ops += b.Ops
+	a.OpsRecycled += b.OpsRecycled
+	a.Interleaved += b.Interleaved
+	addMap(a.Yields, b.Yields)
+	addMap(a.Fired, b.Fired)
+	a.Pool.add(&b.Pool)
+	for i := range a.Matrix {
+		for j := range a.Matrix[i] {
+			a.Matrix[i][j] += b.Matrix[i][j]
+		}
+	}
+	addMap(a.PanicPlace, b.PanicPlace)
+	addMap(a.PutStates, b.PutStates)
+	addMap(a.AbsStates, b.AbsStates)
+	addMap(a.Routes, b.Routes)
+	addMap(a.Extra, b.Extra)
+	a.HeldChecks += b.HeldChecks
+	a.SinkReads += b.SinkReads
+	if b.MaxTasks > a.MaxTasks {
+		a.MaxTasks = b.MaxTasks
+	}
+}
+
+func tailStr(s string, n int) string {
+	if len(s) > n {
+		return "…" + s[len(s)-n:]
+	}
+	return s
+}
+
+func runCmd(env []string, timeout time.Duration, name string, args ...string) (string, int) {
+	cmd := exec.Command(name, args...)
+	cmd.Env = append(os.Environ(), env...)
+	var buf bytes.Buffer
+	cmd.Stdout = &buf
+	cmd.Stderr = &buf
+	if err := cmd.Start(); err != nil {
+		return err.Error(), -1
+	}
+	done := make(chan error, 1)
+	go func() { done <- cmd.Wait() }()
+	select {
+	case err := <-done:
+		if err != nil {
+			if ee, ok := err.(*exec.ExitError); ok {
+				return buf.String(), ee.ExitCode()
+			}
+			return buf.String() + err.Error(), -1
+		}
+		return buf.String(), 0
+	case <-time.After(timeout):
+		cmd.Process.Kill()
+		<-done
+		return buf.String() + "\n[timeout]", -2
+	}
+}
+
+func runWorker(i int, j *workerJob, prop, tier, bin, raceBin, work, replayDir string, maxsec float64) {
+	out := filepath.Join(work, fmt.Sprintf("stats-%d.json", i))
+	b := bin
+	var env []string
+	if j.race {
+		b = raceBin
+		logp := filepath.Join(work, fmt.Sprintf("race-%d", i))
+		env = []string{"GORACE=halt_on_error=0 log_path=" + logp, "VERIF_RACE_LOG=" + logp}
+	}
+	args := []string{"run", "-prop", prop, "-seed", strconv.FormatInt(j.seed, 10), "-n", strconv.Itoa(j.n), "-tier", tier, "-out", out, "-replaydir", replayDir}
+	if maxsec > 0 {
+		args = append(args, "-maxsec", fmt.Sprint(maxsec))
+	}
+	to := 30 * time.Minute
+	if maxsec > 0 {
+		to = time.Duration(maxsec*float64(time.Second)) + 20*time.Minute
+	}
+	o, code := runCmd(env, to, b, args...)
+	j.out, j.code = o, code
+	// the race runtime makes the process exit 66 at the end when it reported anything
+	if code != 0 && !(j.race && code == 66) {
+		j.err = fmt.Errorf("exit code %d", code)
+		return
+	}
+	sb, err := os.ReadFile(out)
+	if err != nil {
+		j.err = err
+		return
+	}
+	var ws WorkerStats
+	if err := json.Unmarshal(sb, &ws); err != nil {
+		j.err = err
+		return
+	}
+	j.stats = &ws
+}
+
+// raceReplays executes a plan in a fresh process of the race build and
+// says whether the race detector reported a race (involving `filter`,
+// when given).
+func raceReplays(q *Plan, raceBin, work, filter string) (bool, string) {
+	f, err := os.CreateTemp(work, "cand-*.json")
+	if err != nil {
+		trouble("%v", err)
+	}
+	f.Close()
+	defer os.Remove(f.Name())
+	qq := q.clone()
+	qq.Violation = nil
+	if err := qq.save(f.Name()); err != nil {
+		trouble("%v", err)
+	}
+	out, _ := runCmd([]string{"GORACE=halt_on_error=0"}, 120*time.Second, raceBin, "replay", "-quiet", f.Name())
+	if !strings.Contains(out, "WARNING: DATA RACE") {
+		return false, ""
+	}
+	// split into reports, keep those that involve the filter
+	reports := strings.Split(out, "==================")
+	var keep []string
+	for _, r := range reports {
+		if !strings.Contains(r, "WARNING: DATA RACE") {
+			continue
+		}
+		if filter == "" || strings.Contains(r, filter) {
+			keep = append(keep, strings.TrimSpace(r))
+		}
+	}
+	if len(keep) == 0 {
+		return false, ""
+	}
+	return true, keep[0]
+}
+
+// raceSummary: the two access lines and the top frames of a report.
+func raceSummary(report string) string {
+	var out []string
+	sc := bufio.NewScanner(strings.NewReader(report))
+	take := 0
+	for sc.Scan() {
+		l := strings.TrimSpace(sc.Text())
+		if strings.HasPrefix(l, "Write at") || strings.HasPrefix(l, "Read at") || strings.HasPrefix(l, "Previous") {
+			// drop addresses and goroutine numbers: not stable
+			f := strings.Fields(l)
+			if len(f) >= 2 {
+				out = append(out, f[0]+" "+f[1])
+			}
+			take = 2
+			continue
+		}
+		if take > 0 && l != "" && !strings.HasPrefix(l, "/") {
+			out = append(out, "  "+l)
+			take--
+		}
+	}
+	return "the race detector reported unsynchronised accesses in a serialised, seeded run: " + strings.Join(out, " | ")
+}
+
+// determinismSpot: a few seeds, executed in separate processes of both
+// builds at different GOMAXPROCS; the event log and outcome digests
+// must hash identically.
+func determinismSpot(prop, tier string, seed int64, n int, bin, raceBin, work string) (bool, string) {
+	type cfg struct {
+		bin  string
+		gmp  string
+		name string
+	}
+	cfgs := []cfg{{bin, "1", "plain/GOMAXPROCS=1"}, {bin, "16", "plain/GOMAXPROCS=16"}}
+	if raceBin != "" {
+		cfgs = append(cfgs, cfg{raceBin, "4", "race/GOMAXPROCS=4"})
+	}
+	outs := make([]string, len(cfgs))
+	var wg sync.WaitGroup
+	for i, c := range cfgs {
+		wg.Add(1)
+		go func(i int, c cfg) {
+			defer wg.Done()
+			o, code := runCmd([]string{"GOMAXPROCS=" + c.gmp, "GORACE=halt_on_error=0"}, 10*time.Minute, c.bin, "run", "-prop", prop, "-tier", tier,
+				"-seed", strconv.FormatInt(seed+7777, 10), "-n", strconv.Itoa(n), "-hash", "-nomin")
+			if code != 0 && code != 66 {
+				outs[i] = fmt.Sprintf("exit %d: %s", code, tailStr(o, 500))
+				return
+			}
+			var hs []string
+			for _, l := range strings.Split(o, "\n") {
+				if strings.HasPrefix(l, "HASH ") {
+					hs = append(hs, l)
+				}
+			}
+			outs[i] = strings.Join(hs, "\n")
+		}(i, c)
+	}
+	wg.Wait()
+	for i := 1; i < len(outs); i++ {
+		if outs[i] != outs[0] || outs[0] == "" {
+			return false, fmt.Sprintf("%s and %s disagree:\n%s\n---\n%s", cfgs[0].name, cfgs[i].name, outs[0], outs[i])
+		}
+	}
+	return true, fmt.Sprintf("%d seeds x %d processes (%s): event logs and outcome digests identical", n, len(cfgs), func() string {
+		var ns []string
+		for _, c := range cfgs {
+			ns = append(ns, c.name)
+		}
+		return strings.Join(ns, ", ")
+	}())
+}
+
+// ---- inventory of package-level mutable state (design §0) -------------------
+
+var expectedGlobals = map[string]bool{
+	"internal/rfmt/print.go:ppFree": true, "internal/rfmt/registry.go:safeTypeRegistry": true,
+	"internal/rfmt/registry.go:redactErrorFn":  true,
+	"internal/markers/constants.go:StartBytes": true, "internal/markers/constants.go:EndBytes": true,
+	"internal/markers/constants.go:EscapeMarkBytes": true, "internal/markers/constants.go:RedactedBytes": true,
+	"internal/markers/constants.go:ReStripSensitive": true, "internal/markers/constants.go:ReStripMarkers": true,
+	"internal/rfmt/helpers.go:unsafeWrapperType": true, "internal/rfmt/helpers.go:safeWrapperType": true,
+	"internal/rfmt/helpers.go:redactableStringType": true, "internal/rfmt/helpers.go:redactableBytesType": true,
+	"internal/buffer/buffer.go:ErrTooLarge":  true,
+	"internal/rfmt/verif_on.go:VerifGetHook": true, "internal/rfmt/verif_on.go:VerifPutHook": true,
+}
+
+func inventory(root string) (all []string, unexpected []string) {
+	fset := token.NewFileSet()
+	filepath.Walk(root, func(path string, info os.FileInfo, err error) error {
+		if err != nil || info.IsDir() || !strings.HasSuffix(path, ".go") || strings.HasSuffix(path, "_test.go") {
+			return nil
+		}
+		f, err := parser.ParseFile(fset, path, nil, 0)
+		if err != nil {
+			return nil
+		}
+		rel, _ := filepath.Rel(root, path)
+		for _, d := range f.Decls {
+			gd, ok := d.(*ast.GenDecl)
+			if !ok || gd.Tok != token.VAR {
+				continue
+			}
+			for _, sp := range gd.Specs {
+				vs := sp.(*ast.ValueSpec)
+				for _, nm := range vs.Names {
+					if nm.Name == "_" {
+						continue
+					}
+					k := rel + ":" + nm.Name
+					all = append(all, k)
+					if !expectedGlobals[k] {
+						unexpected = append(unexpected, k)
+					}
+				}
+			}
+		}
+		return nil
+	})
+	sort.Strings(all)
+	sort.Strings(unexpected)
+	return
+}
+
+func assumptions(prop string) []string {
+	all, unexp := inventory("/repo")
+	a := []string{
+		"the code between two yield points is atomic with respect to other tasks; sound iff no memory other than the pooled printer is shared, which the race monitor checks on every race-build run",
+		"SimPool implements exactly the documented sync.Pool contract (any idle item or a new one; items may vanish); races that need the real pool's internals are out of reach",
+		"RegisterSafeType/RegisterRedactErrorFn are called before tasks start (configuration, not schedule)",
+		"renderings that print addresses (%p, pointers inside containers) are excluded from the operand universe: they are not stable across processes",
+		fmt.Sprintf("package-level variables found in /repo (non-test): %d: %s", len(all), strings.Join(all, ", ")),
+	}
+	if len(unexp) > 0 {
+		a = append(a, "package-level variables NOT in the design's inventory (reported, not a verdict): "+strings.Join(unexp, ", "))
+	} else {
+		a = append(a, "every package-level variable is in the design's inventory (DESIGN.md §0)")
+	}
+	return a
+}
+
+func ruleText(prop string) string {
+	common := "one evaluation = one simulated run: a plan generated from (property, seed) — swarm configuration, 1..16 tasks with op lists, scripted user methods, writer behaviours, per-task tapes of scheduler/pool decisions — executed first op-by-op in isolation (reference) and then under the baton scheduler with SimPool. A run is distinct by the hash of its schedule trace and all op outcomes; it is non-trivial when "
+	switch prop {
+	case "C11":
+		return common + "at least one injected user-method panic actually fired."
+	case "C13":
+		return common + "at least one accessor/restart call ran and the sink task re-read at least one handed-over snapshot after later writes."
+	case "C15":
+		return common + "at least one HelperForErrorf differential group was checked and at least one op started on a recycled printer."
+	case "C16":
+		return common + "at least one route group (all entry points x writer behaviours for one argument list) was executed."
+	}
+	return common + "at least one op started on a recycled printer (measured by the pool seam, not assumed)."
+}
+
+func cmdDeterminism(args []string) {
+	fs := flag.NewFlagSet("determinism", flag.ExitOnError)
+	bin := fs.String("bin", "", "")
+	raceBin := fs.String("racebin", "", "")
+	seeds := fs.Int("seeds", 200, "")
+	seed := fs.Int64("seed", 1, "")
+	work := fs.String("work", os.TempDir(), "")
+	fs.Parse(args)
+	bad := 0
+	for _, prop := range []string{"C11", "C12", "C13", "C15", "C16"} {
+		per := 25
+		for off := 0; off < *seeds; off += per {
+			ok, detail := determinismSpot(prop, "quick", *seed+int64(off)-7777, per, *bin, *raceBin, *work)
+			if !ok {
+				bad++
+				fmt.Printf("DIVERGENCE %s seeds %d..: %s\n", prop, *seed+int64(off), detail)
+			}
+		}
+		fmt.Printf("%s: %d seeds checked\n", prop, *seeds)
+	}
+	if bad > 0 {
+		os.Exit(2)
+	}
+	fmt.Println("determinism: all event logs and outcome digests identical across processes, builds and GOMAXPROCS")
+}
